@@ -39,15 +39,16 @@ type Entry struct {
 
 // A Case is one executable scenario (and the replay witness).
 type Case struct {
-	Mode     string  `json:"mode"` // state | conc
-	Compress bool    `json:"compress"`
-	Entries  []Entry `json:"entries"`
-	Strays   bool    `json:"strays,omitempty"`
-	ViaLink  bool    `json:"cache_dir_through_symlink,omitempty"` // [cache] dir is spelt through a symlinked parent directory (~/.cache on another disk)
-	High     int64   `json:"high"`                                // water marks relative to the sizes measured on this file system: see HighSpec/LowSpec
-	Low      int64   `json:"low"`
-	HighSpec string  `json:"high_spec,omitempty"` // "total+d" : resolved against the measured total at run time
-	LowSpec  string  `json:"low_spec,omitempty"`  // "sum:<bitmask>+d" : measured size of that subset of entries plus d
+	Mode      string  `json:"mode"` // state | conc
+	Compress  bool    `json:"compress"`
+	Entries   []Entry `json:"entries"`
+	Strays    bool    `json:"strays,omitempty"`
+	MissAfter bool    `json:"failed_retrieve_of_marked_entries_before_clean,omitempty"` // every entry this process retrieved is retrieved once more, unsuccessfully (an output it lacks / an unreadable archive): protection must survive a miss
+	ViaLink   bool    `json:"cache_dir_through_symlink,omitempty"`                      // [cache] dir is spelt through a symlinked parent directory (~/.cache on another disk)
+	High      int64   `json:"high"`                                                     // water marks relative to the sizes measured on this file system: see HighSpec/LowSpec
+	Low       int64   `json:"low"`
+	HighSpec  string  `json:"high_spec,omitempty"` // "total+d" : resolved against the measured total at run time
+	LowSpec   string  `json:"low_spec,omitempty"`  // "sum:<bitmask>+d" : measured size of that subset of entries plus d
 	// conc
 	Pattern string `json:"pattern,omitempty"` // CXC: clean to op J, whole X, rest of clean; XCX: X to op K, whole clean, rest of X
 	X       string `json:"x,omitempty"`       // store-new | store-existing | retrieve-existing
@@ -240,7 +241,7 @@ func (w *worker) place(c Case, i int, final string) {
 // build creates the generated state (or repairs the previous one when only access times, marks and water marks differ)
 // and returns the cache under test (with its marks), the entries and the stray files.
 func (w *worker) build(c Case) (*cache.VerifDirCacheC12, []placed, map[string]string) {
-	key := fmt.Sprint(c.Compress, c.Strays, c.ViaLink)
+	key := fmt.Sprint(c.Compress, c.Strays, c.ViaLink, c.MissAfter)
 	for _, e := range c.Entries {
 		key += fmt.Sprint(" ", e.KiB)
 	}
@@ -297,6 +298,15 @@ func (w *worker) build(c Case) (*cache.VerifDirCacheC12, []placed, map[string]st
 			cache.VerifMarkC14(dc, w.stPS[i].path, uint64(w.stPS[i].size))
 		case "R":
 			cache.VerifMarkC14(dc, w.stPS[i].path, 0)
+		}
+	}
+	if c.MissAfter {
+		for i, e := range c.Entries {
+			if e.Mark == "R" {
+				if dc.Retrieve(w.targetOf(i), keys[i], []string{"an-output-the-entry-does-not-have"}) {
+					lib.Fatal("a Retrieve of an output the entry lacks reported a hit")
+				}
+			}
 		}
 	}
 	// access times last (creating children touches directories)
@@ -728,6 +738,14 @@ func main() {
 							marked := false
 							for _, e := range es {
 								marked = marked || e.Mark != ""
+							}
+							retrieved := false
+							for _, e := range es {
+								retrieved = retrieved || e.Mark == "R"
+							}
+							if retrieved && (!r.Quick() || (mask == 0 && d == 0)) {
+								// the same after a failed Retrieve of the entries this process had retrieved
+								out = append(out, Case{Mode: "state", Compress: compress, Entries: es, Strays: strays, MissAfter: true, HighSpec: hs, LowSpec: fmt.Sprintf("sum:%d+%d", mask, d)})
 							}
 							if marked && (!r.Quick() || (mask == 0 && d == 0)) {
 								// the same with the cache directory spelt through a symlinked parent (protection is by path)
